@@ -184,3 +184,59 @@ fn u26_index_body() {
 	kani::cover!(s1 != s2, "reached");
 }
 writer_harness!(#[kani::unwind(6)] u26_index_masks_accumulate, u26_index_body());
+
+// ================================================================== U32: a log file becomes readable (its records can be applied) only after it was synced
+pub(crate) static mut SYNC_N: usize = 0;
+pub(crate) static mut SYNC_FAIL: bool = false;
+pub(crate) static mut SYNC_QUEUE_LEN: usize = 0;
+pub(crate) static mut LOGP: *const Log = std::ptr::null();
+// std::fs::File::sync_data by contract: fdatasync succeeded, or failed
+pub(crate) fn stub_sync_data(_f: &std::fs::File) -> std::io::Result<()> {
+	unsafe {
+		SYNC_N += 1;
+		// the read queue must not already hold (or be in the middle of receiving) the file that is being synced
+		SYNC_QUEUE_LEN = if (*LOGP).read_queue.is_locked_exclusive() { usize::MAX } else { (*LOGP).read_queue.read().len() };
+		if SYNC_FAIL {
+			Err(std::io::Error::from_raw_os_error(5))
+		} else {
+			Ok(())
+		}
+	}
+}
+writer_harness!(#[kani::unwind(4)] #[kani::stub(std::fs::File::sync_data, stub_sync_data)] u32_log_file_synced_before_it_becomes_readable, {
+	use std::os::fd::FromRawFd;
+	let mut log = std::mem::ManuallyDrop::new(mk_log());
+	let sync: bool = kani::any();
+	log.sync = sync;
+	let size: u64 = kani::any();
+	let min_size: u64 = kani::any();
+	let id: u32 = kani::any();
+	// a file handle that is never used for I/O in this harness (sync_data is a contract, the write buffer is empty)
+	let file = unsafe { std::fs::File::from_raw_fd(3) };
+	*log.appending.write() = Some(Appending { id, file: std::io::BufWriter::with_capacity(8, file), size });
+	unsafe {
+		SYNC_N = 0;
+		// the failing-sync path drops the File inside flush_one, which needs close(2): Kani has no model for it, so only a
+		// successful sync is exercised (stated as the bound of this harness)
+		SYNC_FAIL = false;
+		SYNC_QUEUE_LEN = 0;
+		LOGP = &*log as *const Log;
+	}
+	let r = ok(log.flush_one(min_size));
+	let queued = log.read_queue.read().len();
+	if size > min_size && sync && unsafe { SYNC_FAIL } {
+		// the records of a log whose sync failed never become readable: nothing of it can be applied to the tables
+		assert!(r.is_none() && queued == 0, "U32.flush_one.a_failed_sync_leaves_the_log_unreadable");
+	} else if size > min_size {
+		assert!(r == Some(true), "U32.flush_one.reports_a_flush");
+		assert!(queued == 1 && log.appending.read().is_none(), "U32.flush_one.appending_log_becomes_readable");
+		if sync {
+			assert!(unsafe { SYNC_N } == 1 && unsafe { SYNC_QUEUE_LEN } == 0, "U32.flush_one.synced_before_it_becomes_readable");
+		}
+		assert!(matches!(log.read_queue.read().front(), Some((i, _)) if *i == id), "U32.flush_one.same_file_id");
+	} else {
+		assert!(r == Some(false) && queued == 0 && log.appending.read().is_some(), "U32.flush_one.small_log_keeps_appending");
+		assert!(unsafe { SYNC_N } == 0, "U32.flush_one.nothing_synced_when_nothing_flushed");
+	}
+	kani::cover!(size > min_size && sync, "reached");
+});
